@@ -121,7 +121,8 @@ def r05_2_3(prog, rep, direction):
             for tm in p.all_terms():
                 for s in T.walk(tm):
                     a = K.applied_slot(s)
-                    if a and a[1] not in ("t", "origin", "caster", "resolved"):
+                    # (`self.name(...)` where `name` is a method of the routine class is a method call, not the application of a member routine)
+                    if a and a[1] not in ("t", "origin", "caster", "resolved") and prog.lookup_method(c, a[1]) is None:
                         applied.setdefault(a[1], []).append((a, s))
         if not applied:
             continue
